@@ -663,13 +663,22 @@ def reset_discipline(sym):
         need(advances(work), f'{cname}.evaluate: the try block that resets in its finally clause does not contain the evaluation')
         if advances([n for n in outside if not isinstance(n, ast.FunctionDef)]):
             ok = False
+    # ... and does the evaluation ALSO reset the state before it starts (an earlier evaluation whose iterator is still referenced has
+    # not run its finally clause): self._reset_cache_() as a statement of the function body before the try block
+    at_start = True
+    for cname in ('An', 'The'):
+        fn = method(find(sym, ast.ClassDef, cname), 'evaluate')
+        b = body_wo_doc(fn)
+        k = next((j for j, st in enumerate(b) if isinstance(st, ast.Try)), len(b))
+        if not any(ast.dump(st) == D("self._reset_cache_()") for st in b[:k]):
+            at_start = False
     base = find(sym, ast.ClassDef, 'SymbolicExpression')
     rc = [ast.dump(x) for x in body_wo_doc(method(base, '_reset_cache_'))]
     need(rc == [D("self._reset_only_my_cache_()"), D("for child in self._children_:\n    child._reset_cache_()")],
          'SymbolicExpression._reset_cache_: not `reset this node, then every child`')
     ro = [ast.dump(x) for x in body_wo_doc(method(base, '_reset_only_my_cache_'))]
     need(D("self._seen_parent_values_by_parent_ = {}") in ro, 'SymbolicExpression._reset_only_my_cache_: the per-parent seen sets are not emptied')
-    return ok
+    return ok, at_start
 
 
 def rule_builders(rule):
@@ -894,7 +903,9 @@ def emit(d):
     o.append("(* SymbolicExpression._is_duplicate_output_, SeenSet.add, SeenSet.check have the statements Dedup.dup_check transcribes (pinned) *)")
     o.append(f"Definition dedup_site_as_modelled : bool := {'true' if ds else 'false'}.")
     o.append("(* An.evaluate / The.evaluate reset the de-duplication state in a finally clause around the whole evaluation (every exit) *)")
-    o.append(f"Definition evaluation_resets_dedup_state : bool := {'true' if rd else 'false'}.")
+    o.append(f"Definition evaluation_resets_dedup_state : bool := {'true' if rd[0] else 'false'}.")
+    o.append("(* ... and before it starts (an abandoned evaluation whose iterator is still referenced has not run its finally clause) *)")
+    o.append(f"Definition evaluation_resets_dedup_state_at_start : bool := {'true' if rd[1] else 'false'}.")
     return "\n".join(o) + "\n"
 
 
